@@ -276,6 +276,33 @@ const TOKENS: &[&str] = &["type", "service", "func", "record", "variant", "opt",
     "0", "1", "42", "4294967295", "4294967296", "0x1F", "0X1F", "0x", "00_", "1_000", "1__0", "1.5", "1e10", "1e", ".5", "5.", "0xFFFFFFFF", "0x100000000",
     "123456789012345678901234567890123456789012345678901234567890", "/*", "*/", "//", "\n", " ", "\u{e9}", "\u{1F600}", "\0", "principal \"aaaaa-aa\"", "principal \"zz\"", "blob \"\\ff\""];
 
+/// (entry point, text with the slot marked by a section sign)
+const SLOT_TEMPLATES: &[(&str, &str)] = &[
+    ("prog", "type T = record { \u{a7} : nat };"), ("prog", "type T = record { \u{a7} : nat; \u{a7} : nat };"), ("prog", "type T = variant { \u{a7} };"),
+    ("prog", "type T = variant { \u{a7} : nat; b };"), ("prog", "type T = func (\u{a7} : nat) -> ();"), ("prog", "type T = func () -> (\u{a7} : nat, text);"),
+    ("prog", "service : { \u{a7} : () -> () };"), ("prog", "service : (\u{a7} : nat) -> {};"), ("prog", "service : (\u{a7} : nat, \u{a7} : text) -> { f : (\u{a7} : int) -> () };"),
+    ("prog", "type T = service { \u{a7} : func () -> () };"), ("prog", "import \u{a7};"), ("prog", "import service \u{a7};"), ("prog", "type \u{a7} = nat;"),
+    ("prog", "// \u{a7}\ntype T = nat;"), ("prog", "/* \u{a7} */ type T = record { /* \u{a7} */ a : nat };"),
+    ("type", "record { \u{a7} : nat }"), ("type", "variant { \u{a7} }"), ("type", "func (\u{a7} : nat) -> (\u{a7} : nat)"), ("type", "service { \u{a7} : () -> () }"), ("type", "record { \u{a7}; \u{a7} }"),
+    ("types", "(\u{a7} : nat, \u{a7} : text)"), ("types", "(\u{a7})"),
+    ("initargs", "(\u{a7} : nat)"), ("initargs", "type T = nat; (\u{a7} : T, \u{a7} : T)"),
+    ("value", "\u{a7}"), ("value", "record { \u{a7} = 1 }"), ("value", "record { \u{a7}; \u{a7} }"), ("value", "variant { \u{a7} }"), ("value", "variant { \u{a7} = \u{a7} }"),
+    ("value", "blob \u{a7}"), ("value", "principal \u{a7}"), ("value", "service \u{a7}"), ("value", "func \u{a7}.\u{a7}"), ("value", "func \"aaaaa-aa\".\u{a7}"), ("value", "vec { \u{a7}; \u{a7} }"), ("value", "opt \u{a7}"),
+    ("value", "(\u{a7} : nat)"), ("value", "(\u{a7} : nat8)"), ("value", "(\u{a7} : int)"), ("value", "(\u{a7} : int64)"), ("value", "(\u{a7} : float32)"), ("value", "(\u{a7} : float64)"), ("value", "(\u{a7} : text)"),
+    ("value", "-\u{a7}"), ("value", "+\u{a7}"), ("value", "\u{a7}.\u{a7}"), ("value", "\u{a7}e\u{a7}"), ("value", "0x\u{a7}"),
+    ("args", "(\u{a7})"), ("args", "(\u{a7}, \u{a7})"), ("args", "(record { \u{a7} = \u{a7} })"), ("args", "(variant { \u{a7} = null })"), ("args", "(\u{a7} : nat)"),
+    ("test", "assert blob \u{a7} : (nat);"), ("test", "assert \u{a7} : (nat);"), ("test", "assert \u{a7} == \u{a7} : (text);"), ("test", "assert blob \"DIDL\" !: () \u{a7};"),
+    ("test", "type T = record { \u{a7} : nat }; assert \"(1)\" : (T) \u{a7};"), ("test", "assert \"(1)\" : (\u{a7} : nat);"), ("test", "import \u{a7}; assert \"()\" : ();"),
+];
+const EDGE_TEXTS: &[&str] = &["\"\"", "\"\\u{0}\"", "\"\\u{10FFFF}\"", "\"\\u{110000}\"", "\"\\u{D800}\"", "\"\\u{FFFFFFFF}\"", "\"\\u{100000000}\"", "\"\\u{100000041}\"",
+    "\"\\u{FFFFFFFFFFFFFFFFFFFFFFFF}\"", "\"\\u{0_0_4_1}\"", "\"\\u{41_}\"", "\"\\u{_41}\"", "\"\\u{}\"", "\"\\u{0000000000000041}\"", "\"\\ff\"", "\"\\FF\\00\"", "\"\\f\"", "\"\\n\\t\\r\\\"\\'\\\\\"",
+    "\"0\"", "\"1\"", "\"4294967295\"", "\"4294967296\"", "\"00\"", "\"+1\"", "\"-0\"", "\" \"", "\"\u{e9}\"", "\"\u{1F600}\"", "\"record\"", "\"null\"", "\"_\"", "\"_1_\"", "\"_4294967296_\"",
+    "\"aaaaa-aa\"", "\"2vxsx-fae\"", "\"AAAAA-AA\"", "\"a\"", "\"DIDL\\00\\00\"", "a", "_", "_0_", "record", "id_9", "nan", "inf"];
+const EDGE_NUMBERS: &[&str] = &["0", "00", "0_0", "255", "256", "65535", "65536", "4294967295", "4294967296", "9223372036854775807", "9223372036854775808",
+    "18446744073709551615", "18446744073709551616", "340282366920938463463374607431768211455", "340282366920938463463374607431768211456",
+    "99999999999999999999999999999999999999999999999999999999999999999999999999999999", "0x0", "0xff", "0xFFFFFFFF", "0x1_0000_0000", "0XFF", "0x", "0x_1", "1_", "1__0", "_1",
+    "1.", "1.5", ".5", "1e10", "1e309", "1e-400", "1e", "1e+", "1.5e3", "0x1p10", "0x1.8p1", "0x.8p1", "0x1p", "1e99999999999999999999", "-0", "+0", "-1", "-0x1", "- 1", "1 . 5", "3.4028236e38", "1.7976931348623159e308"];
+
 pub fn generate(prop: &str, thorough: bool, r: &mut Rng, em: &mut Emit) {
     let scale = if thorough { 15 } else { 1 };
     match prop {
@@ -342,6 +369,16 @@ pub fn generate(prop: &str, thorough: bool, r: &mut Rng, em: &mut Emit) {
                 em.stat("sentence-mutant");
                 em.case_nt("p.c13.total", &["prog".to_string(), sx::hex(m.join(" ").as_bytes())], true);
                 em.case_nt("p.c13.total", &["initargs".to_string(), sx::hex(m.join(" ").as_bytes())], true);
+            }
+            // every literal slot of the grammars crossed with a pool of boundary literals (quoted texts and numbers): a semantic action
+            // that indexes, parses or folds the token text meets the empty text, escapes whose value does not fit, numbers at and
+            // past every width
+            for (entry, tpl) in SLOT_TEMPLATES {
+                for lit in EDGE_TEXTS.iter().chain(EDGE_NUMBERS.iter()) {
+                    let text = tpl.replace('\u{a7}', lit);
+                    em.stat("slot-template");
+                    em.case_nt("p.c13.total", &[entry.to_string(), sx::hex(text.as_bytes())], true);
+                }
             }
             // nesting up to 128
             for depth in [10usize, 64, 100, 127, 128] {
